@@ -91,6 +91,24 @@ def norm_cfg(x):
     return x
 
 
+_HEX = None
+
+
+def dehex(o):
+    """undo common.jsonable's hex rendering of very large integers in a replayed case"""
+    global _HEX
+    if _HEX is None:
+        import re
+        _HEX = re.compile(r'^-?0x[0-9a-f]+$')
+    if isinstance(o, dict):
+        return {k: dehex(v) for k, v in o.items()}
+    if isinstance(o, list):
+        return [dehex(v) for v in o]
+    if isinstance(o, str) and _HEX.match(o):
+        return int(o, 16)
+    return o
+
+
 def cfg_json(x):
     if isinstance(x, (list, tuple)):
         return [cfg_json(y) for y in x]
@@ -248,11 +266,13 @@ def _parent_path(path):
     return path.rsplit('/', 1)[0] if '/' in path else ''
 
 
-def build(plan, block_order=None, wire_order=None, subst=None, extra=None):
+def build(plan, block_order=None, wire_order=None, subst=None, extra=None, pause_at=None, on_pause=None):
     """Instantiate the plan under a fresh HWSystem.
     block_order / wire_order: permutations of block ids / wire ids (default: plan order).
     subst: {'Reg': cls} class substitution for native kinds (PutReg twin).
-    extra(built): called after all plan blocks exist and before returning (harness probes, waveforms...)."""
+    extra(built): called after all plan blocks exist and before returning (harness probes, waveforms...).
+    pause_at / on_pause: after `pause_at` blocks have been instantiated on_pause(built) is called (e.g. an early
+    getSimulator(), so that the remaining blocks are late additions)."""
     py4hw = P()
     cls = classes()
     subst = subst or {}
@@ -294,7 +314,9 @@ def build(plan, block_order=None, wire_order=None, subst=None, extra=None):
     with muted():
         for wid in worder:
             get_wire(wid)
-        for bid in border:
+        for nb, bid in enumerate(border):
+            if on_pause is not None and nb == pause_at:
+                on_pause(b)
             x = bspec[bid]
             par = scope_obj(x['scope'])
             if x['kind'] == 'cat':
